@@ -14,3 +14,7 @@ mod tests;
 
 #[cfg(test)]
 pub(crate) use indexer::AsyncRichIndexer;
+
+/// Verification hooks (feature `verif-hooks`, off by default).
+#[cfg(feature = "verif-hooks")]
+pub mod verif;
